@@ -16,9 +16,10 @@ RULE = ('a case is a history of executions on one sandbox (each: entry point x t
         'threaded, optionally with one injected internal fault) followed by a probe execution; non-trivial = the '
         'history contains an abnormal termination (any exception, exit, or injected fault); distinct by the '
         'canonical history')
-ASSUMPTIONS = ['global-state vector = identity of sys.stdout, time.sleep, sys.gettrace(), and keys+identities of sys.modules',
+ASSUMPTIONS = ['time-outs: explored with the C14 scheduler harness at pre-emption bound 0; deeper interleavings belong to C14',
+               'global-state vector = identity of sys.stdout, time.sleep, sys.gettrace(), and keys+identities of sys.modules',
                'fault points = every entry of a function defined under /repo while _capture_exception is active, one fault per history',
-               'time-outs are explored by the C14 scheduler harness, which asserts the same patch-state invariant']
+               ]
 EXPLANATION = ('explicit enumeration of execution histories and exhaustive single-fault injection on the real Sandbox; '
                'state invariant evaluated after every operation')
 
@@ -233,8 +234,24 @@ def make_faults(tier):
     return body
 
 
+def _timeout_phase():
+    """Time-out terminations: every timer position of the C14 harness at pre-emption bound 0 (the abandoned thread
+    runs only when the grader is done, or never: blocked student).  Only the C05 clauses are judged here."""
+    from checks import c14
+    inner = c14.make_body(c14._sub('busy', 'printing', 'block', 'slow_error'), 64, True)
+    keep = ('patch state not clean', 'exception escapes')
+
+    def body(ctx):
+        inner(ctx)
+        ctx.fails[:] = [(sig, det) for sig, det in ctx.fails if any(k in sig.get('symptom', '') for k in keep)]
+        for sig, det in ctx.fails:
+            sig['termination'] = 'timeout'
+    return Phase('timeouts', body, bound=0, setup=c14._setup, chunk=100, horizon_s=60,
+                 describe='time-out terminations (C14 scheduler harness, every timer position, no pre-emption)')
+
+
 def bounds(tier):
-    return {'ops': len(_ops(tier)), 'max_history': 2 if tier == 'quick' else 3,
+    return {'ops': len(_ops(tier)), 'timeouts': 'busy/printing/blocking/failing student, timer after every k<=64 shared-state steps', 'max_history': 2 if tier == 'quick' else 3,
             'fault_bound': 1, 'fault_anchor': 'every function entry inside Sandbox._capture_exception, and the entry of append_output (recording the output)',
             'fault_ops': 'entry x {ValueError, sys.exit, Syntax} x tracer, followed by none/normal/failing op'}
 
@@ -245,7 +262,8 @@ def phases(tier):
     ph = [Phase('histories', make_histories(ops, 2), setup=_setup, chunk=200,
                 describe='all histories of <=2 executions over entry x termination x tracer (+threaded)'),
           Phase('faults', make_faults(tier), bound=1, setup=_setup, chunk=200,
-                describe='every single fault point inside _capture_exception for every op, then a follow-up op')]
+                describe='every single fault point inside _capture_exception for every op, then a follow-up op'),
+          _timeout_phase()]
     if tier == 'thorough':
         ph.insert(1, Phase('histories-3', make_histories(small, 3), setup=_setup, chunk=200,
                            describe='all histories of 3 executions over the reduced op set (%d ops)' % len(small)))
